@@ -363,7 +363,10 @@ def run(ctx):
                    "every stored entry that is a field of the history (all series, and the re-attached stored populations) is handed to the constructor unchanged",
                    whyh, disc=f"rebuild|{HC.name}")
     cls_calls = [n for n in walk_no_nested(ld.node) if isinstance(n, ast.Call) and isinstance(n.func, ast.Attribute) and n.func.attr == "load" and isinstance(n.func.value, ast.Name)]
-    saver = [n for n in walk_no_nested(sv.node) if isinstance(n, ast.Call) and isinstance(n.func, ast.Attribute) and n.func.attr == "save" and isinstance(n.func.value, ast.Name) and n.func.value.id == "samples"]
+    evsv = Evaluator(repo, max_depth=0)
+    evsv.run(sv, H)
+    saver = [e for e in evsv.events if e.func is sv and e.callee == "method:save" and e.args
+             and any(x[0] == "f" and x[1] == "method:pop" and len(x[2]) >= 2 and x[2][1] == T.K("sample_history") for x in T.subterms(e.args[0]))]
     ctx.decide(bool(cls_calls) and cls_calls[0].func.value.id == "SMCSamples" and bool(saver), "C13.history", f"{sv.ident}/{ld.ident}", loc_of(ld),
                "stored populations are saved with samples.save and loaded with SMCSamples.load", "stored populations are not loaded with the class that saved them", disc="class")
 
@@ -487,25 +490,35 @@ def run(ctx):
     keys = set()
     for (o, a), v in list(ev.heap.items()):
         pass
-    cfg = ev.last_state.env.get("config")
-    keys = dict_keys_of(cfg) if cfg is not None else set()
-    # keys added later by subscript stores
-    keys |= {n.slice.value for n in walk_no_nested(cd.node) if isinstance(n, ast.Subscript) and isinstance(n.ctx, ast.Store) and isinstance(n.slice, ast.Constant)}
+    keys = dict_keys_of(ret)  # every key of the returned dict on any path (optional entries included)
     named = [p.arg for p in init.node.args.kwonlyargs + init.node.args.args if p.arg != "self"]
     not_saved = {"log_likelihood": "callable, re-supplied on resume", "log_prior": "callable, re-supplied on resume", "flow": "saved separately under /flow"}
     lacking = sorted(p for p in named if p not in keys and p not in not_saved)
     ctx.decide(not lacking, "C13.config", cd.ident, loc_of(cd), f"every stateful constructor parameter is part of the saved configuration ({len(keys)} keys)",
                f"constructor parameter(s) {lacking} are not saved: an instance rebuilt from the file silently uses the default")
     bld = A.methods["_build_aspire_from_file"]
-    popped = {n.args[0].value for n in walk_no_nested(bld.node) if isinstance(n, ast.Call) and isinstance(n.func, ast.Attribute) and n.func.attr == "pop"
-              and isinstance(n.func.value, ast.Name) and n.func.value.id == "config_dict" and n.args and isinstance(n.args[0], ast.Constant)}
+    evb_ = Evaluator(repo, max_depth=0)
+    evb_.run(bld, A)
+    from_cfg = lambda t: any(x[0] == "f" and x[1].endswith("load_from_h5_file") for x in T.subterms(t))  # noqa: E731
+    popped = {e.args[1][1] for e in evb_.events if e.func is bld and e.callee == "method:pop" and len(e.args) >= 2 and e.args[1][0] == "k" and from_cfg(e.args[0])}
+    built = [e for e in evb_.events if e.func is bld and e.callee == f"new:{A.ident}"]
     passed_on = keys - popped
     stray = sorted(k for k in passed_on if k not in named)
     ctx.decide(not stray, "C13.config", bld.ident, loc_of(bld), "every configuration key handed to Aspire(**config) on rebuild is a named constructor parameter",
                f"configuration key(s) {stray} are not named parameters of Aspire.__init__ and are not removed before Aspire(**config): they are swallowed by **kwargs "
                "and become (nested) flow options of the rebuilt instance", disc="rebuild")
-    splat_flow = any(isinstance(n, ast.Dict) and any(k is None for k in n.keys) for n in walk_no_nested(bld.node)) or any(
-        isinstance(n, ast.Call) and isinstance(n.func, ast.Name) and n.func.id == "Aspire" and sum(1 for k in n.keywords if k.arg is None) >= 2 for n in walk_no_nested(bld.node))
+    # the options popped as 'flow_kwargs' reach the constructor call as a **-spread of their own
+    def is_flow_pop(t):
+        return any(x[0] == "f" and x[1] == "method:pop" and len(x[2]) >= 2 and x[2][1] == T.K("flow_kwargs") for x in T.subterms(t))
+    def from_cfg_setitem(t):
+        return t[0] == "f" and t[1] in ("setitem",) or t[0] == "phi"
+    splat_flow = False
+    for e in built:
+        sp_ = dict(e.kwargs).get("**")
+        spreads = list(sp_[1]) if sp_ is not None and sp_[0] == "t" else ([sp_] if sp_ is not None else [])
+        # one of the spreads is the popped options themselves (not the remaining configuration they were popped from)
+        if any(is_flow_pop(x) and not from_cfg_setitem(x) for x in spreads):
+            splat_flow = True
     ctx.decide("flow_kwargs" not in popped or splat_flow, "C13.config", bld.ident, loc_of(bld), "the saved flow options are re-splatted as keyword arguments of the rebuilt instance",
                "the saved flow options are removed from the configuration but never handed to the rebuilt instance", disc="flow_kwargs")
 
